@@ -87,7 +87,8 @@ impl Known {
         let (stage, tags) = classification.split_once('/')?;
         let tags: Vec<&str> = tags.split('+').collect();
         for (pr, st, tr, what) in &self.entries {
-            if st == stage && tags.iter().any(|t| t == tr) {
+            let up = format!("up:{}:{}", st, tr);
+            if (st == stage && tags.iter().any(|t| t == tr)) || tags.iter().any(|t| *t == up) {
                 return Some(format!("{}/{} [{}] {}", st, tr, pr, what));
             }
         }
@@ -295,9 +296,9 @@ fn scenarios_for(stages: &[Stage], initials: &[usize], caps: &[usize], flavours:
             for pat in &pats {
                 for &cap in caps {
                     for &b in flavours {
-                        out.push(Scenario { cap, initial: init, stages: stages.to_vec(), steps: seq.iter().cloned().zip(pat.iter().cloned()).collect(), batched: b, drop_at_end: true, final_drain: true });
+                        out.push(Scenario { cap, initial: init, stages: stages.to_vec(), steps: seq.iter().cloned().zip(pat.iter().cloned()).collect(), batched: b, drop_at_end: true, final_drain: true, abandon_at: None });
                         if pat.last() == Some(&PollMode::None) {
-                            out.push(Scenario { cap, initial: init, stages: stages.to_vec(), steps: seq.iter().cloned().zip(pat.iter().cloned()).collect(), batched: b, drop_at_end: true, final_drain: false });
+                            out.push(Scenario { cap, initial: init, stages: stages.to_vec(), steps: seq.iter().cloned().zip(pat.iter().cloned()).collect(), batched: b, drop_at_end: true, final_drain: false, abandon_at: None });
                         }
                     }
                 }
@@ -345,7 +346,7 @@ fn random_scenarios(stages: &[Stage], n: usize, len: usize, seed: u64, cfg: &Enu
             steps.push((o, pm));
         }
         let cap = [1usize, 2, 3, 16][(next() % 4) as usize];
-        out.push(Scenario { cap, initial: init, stages: stages.to_vec(), steps, batched: next() % 2 == 0, drop_at_end: true, final_drain: true });
+        out.push(Scenario { cap, initial: init, stages: stages.to_vec(), steps, batched: next() % 2 == 0, drop_at_end: true, final_drain: true, abandon_at: None });
     }
 }
 
@@ -470,7 +471,7 @@ fn build(check: &str, tier: &str, seed: u64) -> (Vec<Scenario>, String) {
                         enum_ops(&Model::new(3), &chain, &c, 2, 0, &mut Vec::new(), &mut seqs);
                         for seq in &seqs {
                             for pat in [[PollMode::One, PollMode::Drain], [PollMode::One, PollMode::One], [PollMode::None, PollMode::One]] {
-                                out.push(Scenario { cap: 16, initial: 3, stages: chain.clone(), steps: seq.iter().cloned().zip(pat.iter().cloned()).collect(), batched: false, drop_at_end: true, final_drain: true });
+                                out.push(Scenario { cap: 16, initial: 3, stages: chain.clone(), steps: seq.iter().cloned().zip(pat.iter().cloned()).collect(), batched: false, drop_at_end: true, final_drain: true, abandon_at: None });
                             }
                         }
                     }
@@ -507,6 +508,57 @@ fn build(check: &str, tier: &str, seed: u64) -> (Vec<Scenario>, String) {
                 random_scenarios(&st, 20000, 30, seed, &cfg(0, false, Some(ends_all.clone()), &[], false), &mut out);
             }
             scope = format!("plain and batched subscriber of an ObservableVector; every op sequence of depth {} drained after every op (lengths {{0,1,3}}); one transaction of 1-4 ops with every ending (commit / rollback / drop / rollback-then-redo-and-commit) under all poll patterns and capacities {{1,2,3,16}}; depth 2 with one transaction under all 9 poll patterns (capacities {{1,16}}) ; depth 3 under all 27 poll patterns with capacities {{1,2,3,5}}; the vector is dropped at the end, with and without a poll between the last op and the drop{}", if quick { 3 } else { 4 }, if quick { "" } else { "; thorough adds 20000 seeded random histories of length 30 (not exhaustive)" });
+        }
+        // C20: drop accounting — streams abandoned mid-way, transactions, lag
+        "drops" => {
+            let stages: Vec<Vec<Stage>> = vec![vec![Stage::Identity], vec![Stage::Filter(5)], vec![Stage::FilterMap(3)], vec![Stage::Head(2)], vec![Stage::Tail(2)], vec![Stage::Skip(1)], vec![Stage::Sort], vec![Stage::SortBy(2)], vec![Stage::TailDynInit(1)], vec![Stage::Head(2), Stage::Filter(5)], vec![Stage::Sort, Stage::Tail(2)]];
+            for chain in &stages {
+                let mut base = Vec::new();
+                scenarios_for(chain, &[2], &[1, 16], &[false, true], &cfg(2, true, None, &[0, 3], false), &mut base);
+                let mut c = cfg(1, true, Some(ends_all.clone()), &[], false);
+                c.tx_lens = vec![2, 3];
+                scenarios_for(chain, &[0, 2], &[16], &[false, true], &c, &mut base);
+                // a stream dropped while a transaction is open; a multi-diff batch taken only partly, then more updates
+                let mut cd = cfg(1, true, Some(vec![TxEnd::DropStreamsThenCommit]), &[], false);
+                cd.tx_lens = vec![1, 2];
+                scenarios_for(chain, &[0, 2], &[16], &[false, true], &cd, &mut base);
+                {
+                    let m0 = Model::new(2);
+                    for t in txn_ops(&m0, 3, &[TxEnd::Commit]) {
+                        let mut m1 = m0.clone();
+                        m1.apply(&t);
+                        for o in prim_ops(m1.v.len()) {
+                            if !m1.clone().apply(&o) {
+                                continue;
+                            }
+                            for b in [false, true] {
+                                for (p0, p1) in [(PollMode::One, PollMode::None), (PollMode::One, PollMode::One)] {
+                                    base.push(Scenario { cap: 16, initial: 2, stages: chain.clone(), steps: vec![(t.clone(), p0), (o.clone(), p1)], batched: b, drop_at_end: true, final_drain: false, abandon_at: None });
+                                }
+                            }
+                        }
+                    }
+                }
+                if !quick {
+                    scenarios_for(chain, &[2], &[2, 16], &[false, true], &cfg(3, true, None, &[0, 3], false), &mut base);
+                    let mut c2 = cfg(2, true, Some(vec![TxEnd::Commit, TxEnd::Drop]), &[], false);
+                    c2.tx_lens = vec![2];
+                    scenarios_for(chain, &[2], &[16], &[false], &c2, &mut base);
+                }
+                for sc in base {
+                    for ab in [None, Some(0usize), Some(1usize)] {
+                        if let Some(k) = ab {
+                            if k >= sc.steps.len() {
+                                continue;
+                            }
+                        }
+                        let mut s2 = sc.clone();
+                        s2.abandon_at = ab;
+                        out.push(s2);
+                    }
+                }
+            }
+            scope = "drop accounting with an instrumented item type (every construction, clone and drop counted): plain and batched subscriber and 10 adapter set-ups (filter, filter_map, head, tail, skip, sort, sort_by, dynamic tail, head+filter, sort+tail); every op sequence of depth 2 and single two- and three-op transactions with every ending, under all poll patterns (drain / take one / none), capacities {1,16}; the stream is either kept to the end or dropped right after step 0 / step 1 without draining (e.g. in the middle of a multi-diff batch) while the source keeps changing; at the end everything is dropped and no item may be alive".to_string();
         }
         _ => {
             scope = String::new();
@@ -822,6 +874,51 @@ fn main() {
     let t0 = std::time::Instant::now();
     let prev = std::panic::take_hook();
     std::panic::set_hook(Box::new(|_| {}));
+    if args.check == "miri-set" {
+        // executed under Miri (thorough tier of C20): a few dozen histories through every unsafe block of the library
+        // (reusable_box via lagging/ordinary receives, the stream state swap via multi-diff batches, into_shared),
+        // run inline on one thread; Miri reports undefined behaviour, double frees and leaks for exactly these runs.
+        std::panic::set_hook(prev);
+        let mut n = 0usize;
+        let mut scs: Vec<Scenario> = Vec::new();
+        for chain in [vec![Stage::Identity], vec![Stage::Filter(5)], vec![Stage::Head(2)], vec![Stage::Sort, Stage::Tail(2)]] {
+            for batched in [false, true] {
+                for (cap, ab) in [(16usize, None), (1usize, None), (16usize, Some(0usize))] {
+                    scs.push(Scenario { cap, initial: 2, stages: chain.clone(), steps: vec![(Op::Tx(vec![Op::PushBack, Op::PushFront, Op::Set(0)], TxEnd::Commit), PollMode::One), (Op::Insert(1), PollMode::None), (Op::Remove(0), PollMode::Drain)], batched, drop_at_end: true, final_drain: ab.is_none(), abandon_at: ab });
+                    scs.push(Scenario { cap, initial: 0, stages: chain.clone(), steps: vec![(Op::Append(2), PollMode::None), (Op::Tx(vec![Op::Clear, Op::PushBack], TxEnd::Rollback), PollMode::None), (Op::PushBack, PollMode::Drain)], batched, drop_at_end: true, final_drain: true, abandon_at: None });
+                }
+            }
+        }
+        let mut bad = 0;
+        for sc in &scs {
+            let o = run(sc);
+            n += 1;
+            if let Some(f) = o.failure {
+                if known.matches(&f.classification).is_none() {
+                    println!("FAIL {} {:?}", f.classification, sc.to_json());
+                    bad += 1;
+                }
+            }
+        }
+        use obs::ObsOp as O;
+        let hs: Vec<(bool, Vec<O>)> = vec![
+            (true, vec![O::Subscribe, O::Poll(0), O::Set(1), O::IntoShared, O::Poll(0), O::CloneOwner, O::Downgrade, O::DropOwner(0), O::Set(0), O::Poll(0), O::DropOwner(0), O::Poll(0), O::Upgrade(0), O::Get(0)]),
+            (true, vec![O::IntoShared, O::Subscribe, O::DropOwner(0), O::Read(0), O::DropSub(0)]),
+            (false, vec![O::SubscribeReset, O::CloneSub(0), O::Poll(0), O::Poll(1), O::Update, O::Poll(1), O::Take, O::DropSub(0), O::DropOwner(0), O::Poll(0)]),
+        ];
+        for (u, ops) in &hs {
+            for asy in [false, true] {
+                let r = if asy { obs::run_history::<obs::AsyncSys>(*u, ops, false) } else { obs::run_history::<obs::SyncSys>(*u, ops, false) };
+                n += 1;
+                if let Some(f) = r {
+                    println!("FAIL {} {:?}", f.classification, ops);
+                    bad += 1;
+                }
+            }
+        }
+        println!("miri-set: {} histories executed, {} failed", n, bad);
+        std::process::exit(if bad == 0 { 0 } else { 1 });
+    }
     if args.check == "obs-held" {
         let j = run_obs_held(&args.tier, &known);
         std::panic::set_hook(prev);
